@@ -585,6 +585,8 @@ func checkC16(c *Check) {
 		}
 	}
 	headersOwnBacking(c, "C16.R4", R)
+	transportIsOwn(c, "C16.R4")
+	responseFreshPerCheck(c, "C16.R4", R)
 	// objects that belong to a dependency's package-level state (http.DefaultTransport, http.DefaultClient) are
 	// shared by the whole process: own code writes their fields only on a Clone()
 	for _, fn := range P.Funcs {
